@@ -336,6 +336,35 @@ EvictSeq(S) ==
   /\ lastAct' = [name |-> "Evict", accs |-> S]
   /\ UNCHANGED <<chain, pend, lock, cdel, notified>>
 
+\* --- get(maxBlockBodySize): what the pool offers a block producer within a body-size budget.
+\* Size classes: the second variant of a transaction (amt = 2) is the LARGE one (3 units, a payload in the harness),
+\* the first the small one (1 unit); budgets in the same unit (100 = no limit in reach).
+\* The code walks the lists in Go map order (ANY order), adds every ready transaction's size to a running total and
+\* ends the WHOLE gathering at the first transaction that takes the total over the budget (`break Gather`).  What
+\* the property fixes is per account: a gap-free prefix base+1, base+2, .. of the ready run, nothing after a
+\* transaction that did not fit (GetOffersRuns); which accounts are served before the budget is hit depends on the
+\* map order, so the step records the SET of possible answers (one per order) and the binding demands membership.
+TxSize(tx) == IF tx.amt = 2 THEN 3 ELSE 1
+Budgets == {2, 4, 5, 100}
+ReadyRun(a) == SubSeq(pool[a].list, 1, pool[a].ready)
+RunSize(run, k) == SumSet([i \in 1..k |-> TxSize(run[i])], 1..k)
+PrefixFit(run, room) == Max({k \in 0..Len(run) : RunSize(run, k) <= room})
+RECURSIVE Gather(_, _, _, _)
+Gather(order, i, room, got) ==
+  IF i > Len(order) THEN got
+  ELSE LET a == order[i]
+           k == PrefixFit(ReadyRun(a), room)
+           g == [got EXCEPT ![a] = SubSeq(ReadyRun(a), 1, k)]
+       IN IF k < Len(ReadyRun(a)) THEN g                      \* break Gather: nothing more, of any account
+          ELSE Gather(order, i + 1, room - RunSize(ReadyRun(a), k), g)
+Orders(S) == {o \in [1..Cardinality(S) -> S] : \A i, j \in 1..Cardinality(S) : i # j => o[i] # o[j]}
+GetAnswers(b) == LET S == {a \in DOMAIN pool : pool[a].ready > 0}
+                 IN {Gather(o, 1, b, [a \in S |-> <<>>]) : o \in Orders(S)}
+GetSeq(b) ==
+  /\ lock = "free" /\ Op
+  /\ lastAct' = [name |-> "Get", budget |-> b, alts |-> GetAnswers(b)]
+  /\ UNCHANGED <<svars, pend, lock, cdel>>
+
 BlockChoices == {<<>>} \cup {<<a, st>> : a \in Accounts, st \in UNION {States[x] : x \in Accounts}}
 
 Next == \/ \E t \in Threads : (\E tx \in Txs : PutCache(t, tx)) \/ PutValidate(t) \/ PutLocked(t)
@@ -353,6 +382,7 @@ SeqNext == \/ \E tx \in Txs : PutSeq(tx)
            \/ \E S \in SUBSET Accounts : EvictSeq(S)
            \/ \E tx \in Txs : Remove(tx)
            \/ \E a \in Accounts : Unconfirmed(a)
+           \/ \E b \in Budgets : GetSeq(b)
 
 \* --- the locked part of a put whose lock-free part (cache lookup, validation) passed EARLIER, in another state,
 \* taken in a state where a put started now would be turned away before the lock (where it would not, PutSeq(tx)
@@ -419,6 +449,16 @@ ScanSyncs == [][(lastAct'.name \in {"Block", "BlockLock"}) =>
 \* after a full scan every list is based on the current state
 FullScanSyncsAll == [][(lastAct'.name \in {"Block", "BlockLock"} /\ lastAct'.full) =>
                         \A a \in DOMAIN pool' : pool'[a].base = chain'[a] /\ Len(pool'[a].list) > 0]_vars
+
+\* what get offers: per account a gap-free run base+1, base+2, .. in ascending order that is a prefix of the ready
+\* run (so nothing follows a transaction that did not fit), within the budget; without a limit the whole ready runs
+GetOffersRuns == [][(lastAct'.name = "Get") =>
+                      \A r \in lastAct'.alts :
+                        /\ DOMAIN r \subseteq DOMAIN pool
+                        /\ \A a \in DOMAIN r : /\ Len(r[a]) <= pool[a].ready
+                                                /\ \A i \in 1..Len(r[a]) : r[a][i] = pool[a].list[i] /\ r[a][i].nonce = pool[a].base.nonce + i
+                        /\ SumSet([a \in DOMAIN r |-> RunSize(r[a], Len(r[a]))], DOMAIN r) <= lastAct'.budget
+                        /\ lastAct'.budget = 100 => \A a \in DOMAIN r : Len(r[a]) = pool[a].ready]_vars
 
 \* accepted means held afterwards, rejected means nothing changed
 PutOutcome == [][(lastAct'.name \in {"Put", "PutLocked"}) =>
